@@ -9,6 +9,7 @@ import SocVerif.Driver.ArbD
 import SocVerif.Driver.BridgeD
 import SocVerif.Driver.BuilderD
 import SocVerif.Driver.DecD
+import SocVerif.Driver.CsrMonD
 
 def main (args : List String) : IO UInt32 := do
   match args with
@@ -25,4 +26,5 @@ def main (args : List String) : IO UInt32 := do
   | ["builder"] => BuilderD.main; return 0
   | ["csrdec"] => DecD.mainCsr; return 0
   | ["wbdec"] => DecD.mainWb; return 0
+  | ["csrmon"] => CsrMonD.main; return 0
   | _ => IO.eprintln "usage: driver <mux|mmap|...>"; return 2
